@@ -39,7 +39,14 @@ pub fn gen_doc(rng: &mut Rng, cfg: PCfg, size: usize, density: u64) -> gen::Doc 
             gen::render_log(&d, cfg.flag, &mut l)
         }
         PK::Aag | PK::Aig => {
-            let d = gen::gen_aiger(rng, cfg.pk == PK::Aig, cfg.lt, size);
+            // large documents: half of them with one section of more entries than any reservation cap
+            let d = if size >= 2000 && rng.chance(1, 2) {
+                let sec = if cfg.lt == 0 { 3 + rng.usize(7) } else { rng.usize(10) };
+                let n = gen::long_count(rng);
+                gen::gen_aiger_ext(rng, cfg.pk == PK::Aig, cfg.lt, 300, Some((sec, n)))
+            } else {
+                gen::gen_aiger(rng, cfg.pk == PK::Aig, cfg.lt, size)
+            };
             gen::render_aiger(&d, cfg.lt)
         }
         PK::Btor2 => {
